@@ -55,12 +55,27 @@ let helper (toks : string list) : string list =
      | Ok (Some r) -> [string_of_n r]
      | Panic c -> [panic_token c]
      | OutOfFuel -> ["OUTOFFUEL"])
+  | "dkre" :: m :: ctxs ->
+    let material = parse m in
+    List.concat_map (fun c ->
+      match rs_derive_key (sim_platform (n_of_int 16) (n_of_int 16)) (parse c) material with
+      | Ok h -> [hex_of_nlist h; hex_of_nlist h]
+      | Panic c -> [panic_token c]
+      | OutOfFuel -> ["OUTOFFUEL"]) ctxs
+  | ["tks"; k; m] ->
+    (* KeyInit::new_from_slice: exactly the 32-byte keys are accepted; the MAC is keyed_hash *)
+    let key = parse k in
+    if List.length key <> 32 then ["errlen"]
+    else (match rs_keyed_hash (sim_platform (n_of_int 16) (n_of_int 16)) key (parse m) with
+          | Ok h -> ["ok"; hex_of_nlist h]
+          | Panic c -> [panic_token c]
+          | OutOfFuel -> ["OUTOFFUEL"])
   | _ -> failwith "bad helper case"
 
 let run_case (toks : string list) : string list =
   match toks with
   | ("tohex" | "fromhex" | "fromslice" | "eq" | "serde") :: _ -> hash_conv toks
-  | ("lsl" | "msl") :: _ -> helper toks
+  | ("lsl" | "msl" | "tks" | "dkre") :: _ -> helper toks
   | ("parse" | "fts" | "unescape" | "inv" | "half" | "print" | "rt" | "b3hash" | "b3check") :: _ -> B3sum_driver.run_case toks
   | ("kcip" | "kxof" | "khm" | "khmg" | "kxm") :: _ -> Kernel_driver.run_case toks
   | "CH" :: _ -> C_driver.run_case toks
